@@ -26,6 +26,8 @@ def configs(tdir, work):
         ("no-aslr", "tree", {}, ["setarch", "x86_64", "-R"], "abs"),
         ("malloc-perturb-165", "tree", {"MALLOC_PERTURB_": "165"}, [], "abs"),
         ("malloc-perturb-90", "tree", {"MALLOC_PERTURB_": "90", "MALLOC_ARENA_MAX": "1"}, [], "abs"),
+        ("malloc-perturb-1", "tree", {"MALLOC_PERTURB_": "1"}, [], "abs"),
+        ("malloc-perturb-254", "tree", {"MALLOC_PERTURB_": "254"}, [], "abs"),
         ("different-pid-load", "tree", {"C19_SPIN": "1"}, [], "abs"),
     ]
 
@@ -117,6 +119,32 @@ def relocated(tdir, work, k, tool):
     return "reloc%d" % k, tool, res
 
 
+def limit_programs():
+    """programs that sit at the compilers' internal table sizes (clause / arm / type counts): entries beyond a table, or the
+    unused tail of one, are where uninitialised memory gets into an artifact"""
+    out = []
+    for n in (63, 64, 65, 70, 130):
+        L = ["fn pick(x: int) -> int {", "    return (cond"]
+        L += ["        ((== x %d) %d)" % (i, i * 10) for i in range(n)]
+        L += ["        (else -1))", "}", "shadow pick { assert (== (pick 3) 30) }",
+              "fn main() -> int {\n    (println (pick 3))\n    (println (pick %d))\n    (println (pick 1000))\n    return 0\n}\nshadow main { assert (== 1 1) }" % (n - 1)]
+        out.append(("cond%d" % n, "\n".join(L) + "\n"))
+    for n in (2, 3, 4, 5, 6, 7, 9, 10):
+        # n struct types; the one before the last embeds the last-declared one by value (a forward reference the
+        # transpiler has to order), the first embeds the second
+        L = []
+        for i in range(n):
+            if i == n - 2:
+                L.append("struct S%d { v: int, inner: S%d }" % (i, n - 1))
+            elif i == 0 and n > 2:
+                L.append("struct S0 { v: int, nxt: S1 }" if n != 3 else "struct S0 { v: int }")
+            else:
+                L.append("struct S%d { v: int }" % i)
+        L.append("fn main() -> int {\n    let z: S%d = S%d { v: 7 }\n    let w: S%d = S%d { v: 1, inner: z }\n    (println w.inner.v)\n    return 0\n}\nshadow main { assert (== 1 1) }" % (n - 1, n - 1, n - 2, n - 2))
+        out.append(("structs%d" % n, "\n".join(L) + "\n"))
+    return out
+
+
 def run(ctx):
     info = common.prove(ctx, MODULE, [])
     quick = ctx.tier == "quick"
@@ -141,8 +169,12 @@ def run(ctx):
         bad = os.path.join(srcdir, "bad_type.nano")
         open(bad, "w").write('fn main() -> int {\n    let x: int = "s"\n    return y\n}\nshadow main { assert (== 1 1) }\n')
         names.append(("bad_type", bad))
+        lim = []
+        for nm, text in limit_programs():
+            q = os.path.join(srcdir, nm + ".nano"); open(q, "w").write(text); lim.append((nm, q))
+        names += lim
         jobs = [(tdir, work, n, p, "virt") for n, p in names]
-        nat = names[:(6 if quick else 60)] + [("bad_type", bad)]
+        nat = names[:(6 if quick else 60)] + [("bad_type", bad)] + [x for x in lim if quick is False or x[0] in ("cond70", "structs2", "structs6", "structs10", "structs4")]
         jobs += [(tdir, work, n, p, "nanoc") for n, p in nat]
         with ThreadPoolExecutor(8) as ex:
             results = list(ex.map(one, jobs))
